@@ -1,0 +1,10 @@
+//go:build verif
+
+package pages
+
+// Contracts for gocv (comment-only; see /verif/DESIGN.md).  No executable code.
+
+//@ func (*PageTree) Count results (n, err)
+//@   property C10, C02
+//@   flags readonly
+//@   ensures nonneg: !err ==> n >= 0
